@@ -76,8 +76,33 @@ def run(ctx: Ctx):
     cls = ctx.repo.get_class(DEC, "BeamSearch")
     # ---------------- _make_beam_step
     fi, it, fr = analyse(ctx, cls, "_make_beam_step")
-    L = fr.locals
-    rows_lp = lambda s: isinstance(s, vg.S) and s.op == "sub" and vg.is_const(s.args[1], 0) and s.args[0].op == "attr" and s.args[0].args[1] == "shape" and s.args[0].args[0].op == "param" and s.args[0].args[0].args[0] == "logprobs"
+    # the intermediate values are recovered from the outputs (returned pair, beam_path.append, parent_beam_logprobs), not by local names
+    ret0 = fr.ret
+    items0 = ret0.items if isinstance(ret0, vg.Tup) else (list(ret0.args) if isinstance(ret0, vg.S) and ret0.op == "tuple" else [])
+    ap0 = [e for e in it.events if e.kind == "methcall" and e.data[1] == "append"]
+    L = {}
+    if len(items0) == 2:
+        L["selected"], L["batch_beam_idx"] = it.sym(items0[0]), it.sym(items0[1])
+    if ap0 and ap0[0].data[2]:
+        L["beam_parent"] = ap0[0].data[2][0]
+    if isinstance(it.selfattrs.get("parent_beam_logprobs"), vg.S):
+        L["logprobs_selected"] = it.selfattrs["parent_beam_logprobs"]
+    sel0 = L.get("selected")
+    if isinstance(sel0, vg.S) and sel0.op == "%":
+        L["topk_ind"], L["num_nodes"] = sel0.args[0], sel0.args[1]
+        tk0 = [n for n in vg.walk(L["topk_ind"]) if fnname(n) == "torch.topk"]
+        if len(tk0) == 1:
+            L["log_beam_prob_hstacked"] = tk0[0].args[1]
+            hs0 = nf.strip(tk0[0].args[1])
+            if fnname(hs0) == "torch.cat" and hs0.args[1].op == "meth" and hs0.args[1].args[1] == "split":
+                L["log_beam_prob"] = hs0.args[1].args[0]
+    need = ("selected", "batch_beam_idx", "beam_parent", "topk_ind", "num_nodes", "log_beam_prob_hstacked", "log_beam_prob")
+    missing = [k for k in need if not isinstance(L.get(k), vg.S)]
+    if missing:
+        ctx.ob("C13.b", "_make_beam_step:decode", False, fi.loc,
+               f"the beam step does not have the shape top-k over cat(score.split(B), 1) decoded with % and //: could not recover {missing} from its outputs", construct="BeamSearch._make_beam_step:decode")
+        return
+    rows_lp = lambda s: nf.dim_of(s) is not None and nf.dim_of(s)[1] == 0 and nf.dim_of(s)[0].op == "param" and nf.dim_of(s)[0].args[0] == fi.params()[1]
     ok, parent, why = flat_index_ok(L["batch_beam_idx"], rows_lp)
     ctx.ob("C13.a", "_make_beam_step:batch_beam_idx", ok and parent is nf.norm(L["beam_parent"]) , fi.loc,
            why + f"; parent is the decoded beam_parent: {parent is nf.norm(L['beam_parent'])}", construct="BeamSearch._make_beam_step:flat-index")
@@ -94,11 +119,11 @@ def run(ctx: Ctx):
     ctx.ob("C13.b", "_make_beam_step:score=logp+parent", ok_s, fi.loc, f"beam score = {lbp.show(2)}", construct="BeamSearch._make_beam_step:score")
     tk = [n for n in vg.walk(L["topk_ind"]) if fnname(n) == "torch.topk"]
     ok_t = len(tk) == 1 and tk[0].args[1] is L["log_beam_prob_hstacked"] and tk[0].args[2].op == "selfattr" and tk[0].args[2].args[0] == "beam_width" and \
-        any(a.op == "kw" and a.args[0] == "dim" and vg.is_const(a.args[1], 1) for a in tk[0].args[3:])
+        (any(a.op == "kw" and a.args[0] == "dim" and vg.is_const(a.args[1], 1) for a in tk[0].args[3:]) or (len(tk[0].args) > 3 and vg.is_const(tk[0].args[3], 1)))
     ctx.ob("C13.b", "_make_beam_step:topk", ok_t, fi.loc, "top-k over the stacked scores with beam_width on dim 1", construct="BeamSearch._make_beam_step:topk")
     ti = nf.strip(L["topk_ind"])
     ok_f = fnname(ti) == "torch.hstack" and fnname(ti.args[1]) == "torch.unbind" and vg.is_const(ti.args[1].args[2], 1)
-    ls = nf.strip(L["logprobs_selected"])
+    ls = nf.strip(L["logprobs_selected"]) if isinstance(L.get("logprobs_selected"), vg.S) else vg.const(None)
     ok_f = ok_f and fnname(ls) == "torch.hstack" and fnname(ls.args[1]) == "torch.unbind" and vg.is_const(ls.args[1].args[2], 1)
     ctx.ob("C13.b", "_make_beam_step:reflatten", ok_f, fi.loc, "hstack(unbind(., 1)): [B, W] -> [W*B] beam-major / batch-minor, for indices and scores alike", construct="BeamSearch._make_beam_step:reflatten")
     nn = L["num_nodes"]
@@ -111,7 +136,8 @@ def run(ctx: Ctx):
     ok_a = len(ap) == 1 and e_is_attr(ap[0], "beam_path") and ap[0].data[2][0] is L["beam_parent"] and not ap[0].conds
     ctx.ob("C13.d", "_make_beam_step:beam_path.append", ok_a, fi.loc, "beam_path receives exactly the decoded parents, once per step", construct="BeamSearch._make_beam_step:beam_path")
     pb = it.selfattrs.get("parent_beam_logprobs")
-    ctx.ob("C13.d", "_make_beam_step:parent_beam_logprobs", pb is L["logprobs_selected"], fi.loc, "parent scores are overwritten with the selected top-k scores", construct="BeamSearch._make_beam_step:parent-scores")
+    tk_vals = [n for n in (vg.walk(pb) if isinstance(pb, vg.S) else []) if n.op == "sub" and vg.is_const(n.args[1], 0) and fnname(n.args[0]) == "torch.topk" and n.args[0] is tk[0]] if tk else []
+    ctx.ob("C13.d", "_make_beam_step:parent_beam_logprobs", isinstance(pb, vg.S) and bool(tk_vals), fi.loc, "parent scores are overwritten with the values of that same top-k (the selected scores)", construct="BeamSearch._make_beam_step:parent-scores")
     ret = fr.ret
     items = ret.items if isinstance(ret, vg.Tup) else list(ret.args)
     ctx.ob("C13.c", "_make_beam_step:return", it.sym(items[0]) is sel and it.sym(items[1]) is L["batch_beam_idx"], fi.loc, "returns (selected, batch_beam_idx)", construct="BeamSearch._make_beam_step:return")
@@ -123,8 +149,9 @@ def run(ctx: Ctx):
     r = mk[0].ret
     items = r.items if isinstance(r, vg.Tup) else list(r.args)
     bbi = it.sym(items[1])
-    lp, msk = fr.locals.get("logprobs"), fr.locals.get("mask")
-    tdv = fr.locals.get("td")
+    pn = fi.params()
+    lp, msk = fr.locals.get(pn[1]), fr.locals.get(pn[2])
+    tdv = fr.locals.get(pn[3])
     ok = isinstance(lp, vg.S) and lp.op == "sub" and lp.args[1] is bbi and lp.args[0].op == "param" and \
         isinstance(msk, vg.S) and msk.op == "sub" and msk.args[1] is bbi and msk.args[0].op == "param" and \
         isinstance(tdv, vg.TD) and tdv.parent is not None and tdv.parent[1] is bbi
@@ -133,8 +160,8 @@ def run(ctx: Ctx):
     items = ret.items if isinstance(ret, vg.Tup) else list(ret.args)
     ok = it.sym(items[0]) is lp and it.sym(items[1]) is it.sym(mk[0].ret.items[0] if isinstance(mk[0].ret, vg.Tup) else mk[0].ret.args[0]) and items[2] is tdv
     ctx.ob("C13.c", "_step:return", ok, fi.loc, "returns the re-indexed log-probs, the selected nodes and the re-indexed state", construct="BeamSearch._step:return")
-    guards = [e for e in it.events if e.kind == "assert" and "mask" in vg.params_of(e.data)]
-    pol = set().union(*[nf.bool_signs(e.data, "mask") for e in guards]) if guards else set()
+    guards = [e for e in it.events if e.kind == "assert" and pn[2] in vg.params_of(e.data)]
+    pol = set().union(*[nf.bool_signs(e.data, pn[2]) for e in guards]) if guards else set()
     sel_ = it.sym(items[1])
     on_sel = bool(guards) and all(any(n is sel_ for n in vg.walk(e.data)) and any(n is msk for n in vg.walk(e.data)) for e in guards)
     ctx.ob("C13.c", "_step:infeasibility-guard", bool(guards) and pol == {+1} and on_sel and all(not e.conds for e in guards), fi.loc,
@@ -142,12 +169,16 @@ def run(ctx: Ctx):
            f"on the returned selection and the re-indexed mask: {on_sel})", construct="BeamSearch._step:guard")
     # ---------------- _backtrack
     fi, it, fr = analyse(ctx, cls, "_backtrack")
-    L = fr.locals
-    rows_a = lambda s: isinstance(s, vg.S) and s.op == "meth" and s.args[1] == "size" and vg.is_const(s.args[2], 0) and fnname(s.args[0]) == "torch.stack"
-    bbi = L["batch_beam_idx"]
-    body = bbi.args[1] if bbi.op == "loop" else bbi
+    rows_a = lambda s: nf.dim_of(s) is not None and nf.dim_of(s)[1] == 0 and fnname(nf.dim_of(s)[0]) == "torch.stack"
+    # the flat index is the row index of the appended reads; the parent pointer is the loop-carried value that starts at beam_path[-1]
+    ap_b = [e for e in it.events if e.kind == "methcall" and e.data[1] == "append" and e.data[2] and e.data[2][0].op == "sub" and e.data[2][0].args[1].op == "tuple"]
+    if not ap_b:
+        raise AnalysisError("BeamSearch._backtrack: aligned reads `stack[idx, k]` not found")
+    body = ap_b[0].data[2][0].args[1].args[0]
     ok, parent, why = flat_index_ok(body, rows_a)
-    cp = L["cur_parent"]
+    cps = [v for v in fr.locals.values() if isinstance(v, vg.S) and v.op == "loop" and v.args[0].op == "sub" and vg.is_const(v.args[0].args[1], -1)
+           and v.args[0].args[0].op == "selfattr" and v.args[0].args[0].args[0] == "beam_path"]
+    cp = cps[0] if cps else vg.const(None)
     rec_ok = False
     if cp.op == "loop":
         init, nxt = cp.args
@@ -169,9 +200,13 @@ def run(ctx: Ctx):
     ctx.ob("C13.d", "_backtrack:loop-range", ok_l, fi.loc, "for k in reversed(range(len(self.beam_path) - 1))", construct="BeamSearch._backtrack:loop-range")
     # ---------------- _select_best_beam
     fi, it, fr = analyse(ctx, cls, "_select_best_beam")
-    L = fr.locals
-    rows_l = lambda s: isinstance(s, vg.S) and s.op == "meth" and s.args[1] == "size" and vg.is_const(s.args[2], 0) and s.args[0].op == "param" and s.args[0].args[0] == "logprobs"
-    fl = L["flat_idx"]
+    rows_l = lambda s: nf.dim_of(s) is not None and nf.dim_of(s)[1] == 0 and nf.dim_of(s)[0].op == "param" and nf.dim_of(s)[0].args[0] == fi.params()[1]
+    r0 = fr.ret
+    it0 = r0.items if isinstance(r0, vg.Tup) else (list(r0.args) if isinstance(r0, vg.S) else [])
+    first = it.sym(it0[0]) if it0 and not isinstance(it0[0], (vg.TD, vg.Tup)) else None
+    if not (isinstance(first, vg.S) and first.op == "sub"):
+        raise AnalysisError("BeamSearch._select_best_beam: does not return logprobs[<index>]")
+    fl = first.args[1]
     p = nf.poly(fl)
     mon = p.monos()
     ok_e, why_e = False, "flat index is not arange(B) + idx * B"
